@@ -638,7 +638,59 @@ def r10_8(repo: Repo, rule: str = "R10.8") -> RuleResult:
     return rr
 
 
-RULES = [r10_1, r10_2, r10_3, r10_4, r10_5, r10_6, r10_7, r10_8]
+_NARROW16 = {"uint8", "int8", "uint16", "int16"}
+_NARROW32 = {"uint32", "int32"}
+
+
+def _declared_locals(f: Func) -> Dict[str, str]:
+    """name -> numba type name declared through @njit(locals=...)."""
+    v = f.njit_kwargs.get("locals")
+    out: Dict[str, str] = {}
+    if isinstance(v, ast.Dict):
+        for k, t in zip(v.keys, v.values):
+            if isinstance(k, ast.Constant) and isinstance(k.value, str):
+                out[k.value] = norm(t).rsplit(".", 1)[-1]
+    elif isinstance(v, ast.Call) and norm(v.func) == "dict":
+        for k in v.keywords:
+            if k.arg:
+                out[k.arg] = norm(k.value).rsplit(".", 1)[-1]
+    return out
+
+
+def r10_9(repo: Repo, rule: str = "R10.9", only: Optional[Set[str]] = None) -> RuleResult:
+    """@njit(locals={...}) pins the machine type of a variable.  A flat index or key computed as a product / sum of
+    other quantities (`arc = i * m + j`) wraps around silently when it is pinned to 16 bits (or, for a product of two
+    sizes, 32 bits), and the wrapped value is then used to address an array."""
+    rr = RuleResult(rule, "variables holding computed indices are not pinned to a narrow integer type by @njit(locals=...)", floor=1)
+    for f in njit_functions(repo):
+        if only is not None and f.qualname not in only:
+            continue
+        decl = _declared_locals(f)
+        if not decl:
+            if only is not None:
+                rr.ok(f, "locals=", "no variable is pinned to a machine type", f.node.lineno, nontrivial=False)
+            continue
+        for name, ty in sorted(decl.items()):
+            vals = [n.value for n in walk_no_nested(f.node) if isinstance(n, ast.Assign) and any(isinstance(t, ast.Name) and t.id == name for t in n.targets)]
+            vals += [n.value for n in walk_no_nested(f.node) if isinstance(n, ast.AugAssign) and isinstance(n.target, ast.Name) and n.target.id == name]
+            arith = [v for v in vals if any(isinstance(x, ast.BinOp) and isinstance(x.op, (ast.Mult, ast.Add, ast.LShift)) and
+                                            not (isinstance(x.left, ast.Constant) and isinstance(x.right, ast.Constant)) for x in ast.walk(v))]
+            product = [v for v in arith if any(isinstance(x, ast.BinOp) and isinstance(x.op, ast.Mult) and not isinstance(x.left, ast.Constant)
+                                               and not isinstance(x.right, ast.Constant) for x in ast.walk(v))]
+            as_index = any(isinstance(n, ast.Subscript) and name in {x.id for x in ast.walk(n.slice) if isinstance(x, ast.Name)} for n in walk_no_nested(f.node)) \
+                or any(isinstance(n, ast.Call) and any(isinstance(a, ast.Name) and a.id == name for a in n.args) for n in walk_no_nested(f.node))
+            construct = "locals %s: %s" % (name, ty)
+            if ty in _NARROW16 and arith and as_index:
+                rr.bad(f, construct, "`%s` is computed as `%s` and used to address an array, but is pinned to %s: it wraps around at %d, so larger "
+                       "problems read the wrong entries" % (name, short(arith[0], 40), ty, 2 ** (8 if "8" in ty else 16)), f.node.lineno)
+            elif ty in _NARROW32 and product and as_index:
+                rr.bad(f, construct, "`%s` is a product of two sizes (`%s`) pinned to %s: it wraps around at 2**32" % (name, short(product[0], 40), ty), f.node.lineno)
+            else:
+                rr.ok(f, construct, "not an arithmetic index narrower than the values it can take", f.node.lineno)
+    return rr
+
+
+RULES = [r10_1, r10_2, r10_3, r10_4, r10_5, r10_6, r10_7, r10_8, r10_9]
 
 CLAIM = (
     "R10.1 definite assignment (with the for-loop zero-trip edge) in all njit functions; R10.2 every np.searchsorted "
@@ -647,7 +699,8 @@ CLAIM = (
     "shapes; R10.5 prange stores are indexed by the induction variable; R10.6 slots of np.empty buffers and placeholder "
     "lists are stored on every iteration of their filling loop (no one-armed conditional around the store); R10.7 cursors that "
     "index parameter arrays inside a while (merge) loop are strictly bounded by the loop test against the length of an array they index; "
-    "R10.8 a read of the last element `A[len(A) - 1]` of a parameter array is dominated by a test that A is non-empty."
+    "R10.8 a read of the last element `A[len(A) - 1]` of a parameter array is dominated by a test that A is non-empty; R10.9 no "
+    "computed index is pinned to a narrow integer type through @njit(locals=...)."
 )
 NOT_DECIDED = (
     "indices that are data (window_size_array[i, target_word], baseline_probabilities[idx], token ids beyond a "
